@@ -13,11 +13,12 @@ name is deleted from the outbound header before the injector is consulted, the v
 only when the injector returned a non-empty value without error. -/
 theorem gen_ok : Gen.Proxy.rewriteSteps =
     ["r.SetURL(f.To)",
+     "iftq,iq:=f.To.RawQuery,r.In.URL.RawQuery;tq==\"\"||iq==\"\"{r.Out.URL.RawQuery=tq+iq}else{r.Out.URL.RawQuery=tq+\"&\"+iq}",
      "r.Out.Header[\"X-Forwarded-For\"]=r.In.Header[\"X-Forwarded-For\"]",
      "r.SetXForwarded()",
      "iff.PreserveHost{r.Out.Host=r.In.Host}",
      "for_,hj:=rangef.HeaderInjectors{k:=hj.GetHeaderName()r.Out.Header.Del(k)ifv,err:=hj.GetHeaderValue(r.In);err!=nil{f.logf(\"getheader%svaluefor%sfailed:%s\",k,r.In.RemoteAddr,err)}elseifv!=\"\"{r.Out.Header.Set(k,v)}}"] := by
-  first | rfl | (refine ⟨?_, ?_, ?_, ?_, ?_, ?_⟩ <;> rfl)
+  first | rfl | (rfl)
 
 /-- MAIN THEOREM (injector loop). Whatever header map `h` reaches the loop — in particular whatever the
 client put under the name, in any case, once or repeated — after the loop the header named by any
